@@ -112,15 +112,34 @@ func WarmMD(cfg string) goldmark.Markdown {
 // Source builds the symbolic source: either n free bytes, or a seed document with a window
 // of w symbolic bytes at offset p (w bytes appended when p == len(seed)).
 func Source() []byte {
+	if toks := vp.ParamStr("tokens", ""); toks != "" {
+		// token mode: n positions, each one of the \x1f-separated tokens (solver-enumerated choice);
+		// the token "?" is one unconstrained symbolic byte
+		ts := splitN(toks, 0x1f)
+		n := vp.ParamInt("n", 3)
+		var src []byte
+		for i := 0; i < n; i++ {
+			c := vp.Concrete(vp.IntRange("tok", 0, len(ts)-1))
+			if ts[c] == "?" {
+				src = append(src, vp.Byte("q"))
+			} else {
+				src = append(src, ts[c]...)
+			}
+		}
+		return src
+	}
 	seed := vp.ParamStr("seed", "")
 	if seed == "" && vp.ParamInt("window", 0) == 0 {
 		n := vp.ParamInt("n", 2)
-		return vp.Bytes("b", n)
+		b := vp.Bytes("b", n)
+		alphabetAssume(b)
+		return b
 	}
 	p := vp.ParamInt("pos", 0)
 	w := vp.ParamInt("window", 1)
 	src := []byte(seed)
 	hole := vp.Bytes("b", w)
+	alphabetAssume(hole)
 	if p+w > len(src) {
 		src = append(src[:p:p], hole...)
 	} else {
